@@ -19,15 +19,14 @@ def cmpBytes : Bytes → Bytes → Ordering
 
 def thenCmp (a : Ordering) (b : Ordering) : Ordering := match a with | .eq => b | o => o
 
-/-- `f64::partial_cmp(..).unwrap_or(Equal)` on bit patterns -/
+/-- `f64::total_cmp` on bit patterns (IEEE 754 totalOrder: -NaN < -inf < … < -0 < +0 < … < +inf < NaN); before the repair of
+finding c14:nan-float-order-dependent the comparison was `partial_cmp(..).unwrap_or(Equal)`, which made a NaN equal to every
+number and the sibling comparison no total preorder -/
 def cmpF64 (a b : Nat) : Ordering :=
-  if isNaNBits a ∨ isNaNBits b then .eq
-  else
-    let key (x : Nat) : Int := if x ≥ 2 ^ 63 then -((x - 2 ^ 63 : Nat) : Int) else (x : Int)
-    let ka := key a
-    let kb := key b
-    if ka < kb then .lt else if ka > kb then .gt else .eq
-where isNaNBits (b : Nat) : Bool := (b >>> 52) % 2048 == 2047 && b % (2 ^ 52) != 0
+  let key (x : Nat) : Int := if x ≥ 2 ^ 63 then -((x - 2 ^ 63 : Nat) : Int) - 1 else (x : Int)
+  let ka := key a
+  let kb := key b
+  if ka < kb then .lt else if ka > kb then .gt else .eq
 
 section
 variable (S : Spec) (V : Env)
